@@ -329,6 +329,22 @@ def _target_names(op):
     return [k for k, _ in op[1]]
 
 
+def _slice_count(span, a, b, st):
+    """Number of periods addressed by obj[name, a:b:st] (labels inclusive), None when the key itself must be rejected."""
+    n = len(span)
+    if n == 0:
+        return None
+    try:
+        sl = span.index(span[0] if a is None else a)
+        el = span.index(span[-1] if b is None else b) + 1
+    except ValueError:
+        return None
+    step = 1 if st is None else st
+    if step == 0:
+        return None
+    return len(range(n)[sl:el:step])
+
+
 def oracle(case, obs):
     fails = []
 
@@ -343,12 +359,18 @@ def oracle(case, obs):
     extra = case.get('extra', 0)
     created = {}
     prev = obs['st0']
+    declared = [] if case['kind'] == 'vc' else list(case['names'])      # declaration order, recorded by the harness
     for v in prev['vars']:
         created[v[0]] = v[1]
     steps = obs['steps']
     for i, (op, stp) in enumerate(zip(case['ops'], steps)):
         st, out = stp['st'], stp['out']
-        rows = st['names'] if case['kind'] != 'vc' else st['index']
+        if op[0] == 'addvar' and out == 'ok':
+            declared.append(op[1])
+        rows = declared
+        if (st['names'] if case['kind'] != 'vc' else st['index'][len(st['index']) - len(rows):]) != rows:
+            bad('declaration-order', 'op %d %s: the object lists the variables %s, declared were %s' % (
+                i, op[0], st['names'] if case['kind'] != 'vc' else st['index'], rows))
         # ---- (1) Inv: every series is 1-D, one element per period, dtype as created; index duplicate-free
         if len(set(st['index'])) != len(st['index']):
             bad('index|duplicate', 'op %d %s: index holds a name twice: %s' % (i, op[0], st['index']))
@@ -369,6 +391,9 @@ def oracle(case, obs):
             bad('values|content', 'op %d %s: values is not the stack of the series in declaration order' % (i, op[0]))
         if st['size'] != len(rows) * n + extra:
             bad('size', 'op %d: size %s, expected %d' % (i, st['size'], len(rows) * n + extra))
+        if stp.get('values_set_ok') is False:
+            bad('values|setter-content', 'op %d: obj.values = v was accepted but the series do not hold the assigned rows '
+                '(row i -> i-th declared variable, cast to its dtype)' % i)
         # ---- (3) a failed single-variable assignment leaves every series unchanged
         single = op[0] in ('addvar', 'setitem') or (op[0] == 'setattr' and op[1] not in ('values',))
         if single and out != 'ok':
@@ -387,6 +412,9 @@ def oracle(case, obs):
         # unknown / duplicate names must raise
         if op[0] == 'setitem' and len(op[1]) > 1 and op[1][1] not in prev['index'] and out == 'ok':
             bad('setitem|unknown-name-accepted', "op %d: obj[%r, ...] = v with %r not a variable did not raise" % (i, op[1][1], op[1][1]))
+            # the write went into some other object of __dict__ (the attribute registry): what follows is judged on a corrupted
+            # object and would only repeat this finding in other words
+            break
         if op[0] == 'addvar' and op[1] in prev['index'] and out != 'DuplicateNameError':
             bad('add_variable|duplicate-name', 'op %d: add_variable of existing %s gave %s' % (i, op[1], out))
         if op[0] == 'addattr' and (op[1] in prev['index'] or op[1] in prev['reg']) and out != 'DuplicateNameError':
@@ -397,6 +425,17 @@ def oracle(case, obs):
             v = op[2]
             if tname in prev['index'] and v[0] in ('L', 'T') and all(x[0] == 'S' for x in v[1]) and len(v[1]) != n:
                 bad('whole-series|wrong-length-accepted', 'op %d: a sequence of %d values was accepted for a span of %d' % (i, len(v[1]), n))
+        # a flat sequence whose length is neither 1 nor the number of addressed periods into a label slice: must raise
+        if op[0] == 'setitem' and op[1][0] == 'sl' and out == 'ok' and op[1][1] in prev['index']:
+            v = op[2]
+            m = None
+            if v[0] in ('L', 'T') and all(x[0] == 'S' for x in v[1]):
+                m = len(v[1])
+            elif v[0] == 'R':
+                m = len(range(v[1], v[2], v[3]))
+            k = _slice_count(case['span'], op[1][2], op[1][3], op[1][4])
+            if m is not None and k is not None and m != k and m != 1:
+                bad('slice|wrong-length-accepted', 'op %d: %d values were accepted for a label slice of %d periods' % (i, m, k))
         # ---- (4) strict
         if prev['strict'] and op[0] == 'setattr' and op[1] == 'values' and out == 'AttributeError':
             # `values` replacement is one of the public operations and `values` an existing name of the class: it must keep working
